@@ -146,7 +146,13 @@ func (s *scopedWalker) walkFn(path string, d fs.DirEntry, err error) error {
 	// st.logger.Printf("flags for %q: %v", name, flags)
 
 	if s.excl.matches(name) {
-		return filepath.SkipDir
+		if info.IsDir() {
+			// do not descend into an excluded directory
+			return filepath.SkipDir
+		}
+		// Returning SkipDir for a non-directory would make fs.WalkDir
+		// skip the remaining entries of the containing directory.
+		return nil
 	}
 
 	s.fileList.Files = append(s.fileList.Files, file{
